@@ -797,7 +797,7 @@ Proof.
         destruct (parse_typed_decl B (snd (passert T_IDENT s4))) as [[[n p] t] s1| |] eqn:PT; try discriminate PL.
         apply IH in PL. rewrite PL. unfold parse_typed_decl in PT.
         destruct (p_type B _) as [ty s2| |] eqn:PY; try discriminate PT. unfold p_type in PY. apply expr_call_fn in PY.
-        destruct ty; apply Ok_inj in PT as [_ ->]; rewrite ?fns_serr_at, PY, !fns_adv, !fns_passert; reflexivity. }
+        destruct ty; apply Ok_inj in PT as [_ ->]; rewrite ?fns_serr_at, PY, ?fns_adv, ?fns_passert, ?fns_adv, ?fns_passert; reflexivity. }
       assert (F4 : fns s4 = fns s2).
       { destruct (ct (adv s2)); try (apply Ok_inj in PR as [_ ->]; apply fns_adv).
         destruct (p_type B (adv (adv s2))) as [t s5'| |] eqn:PT; try discriminate PR. unfold p_type in PT. apply expr_call_fn in PT.
